@@ -12,6 +12,7 @@ AnalysisError -- never a guess.
 from __future__ import annotations
 
 import ast
+import re
 from typing import Callable, Dict, List, Optional, Sequence, Tuple
 
 from .absdom import Aff, Constraints, NeedFork, Piece, show_pieces
@@ -962,6 +963,20 @@ class Frame(object):
             if st is I.step_loop:
                 raise StepDone(dict(self.env))
             return
+        elif isinstance(it, Term):
+            elem = Term("elem-of", it)
+            I.path.effects.append(("loop", "term:" + repr(it)[:80], elem))
+            self.assign(st.target, elem)
+            I.loop_depth += 1
+            try:
+                self.block(st.body)
+            except LoopContinue:
+                pass
+            except LoopBreak:
+                I.path.effects.append(("break", repr(it)[:80]))
+            finally:
+                I.loop_depth -= 1
+            return
         else:
             self.unsupported(st.iter, "iteration over %r" % (it,))
         for x in items:
@@ -1456,6 +1471,8 @@ class Frame(object):
             self.unsupported(e, "nested comprehension")
         g = e.generators[0]
         it = self.expr(g.iter)
+        if isinstance(it, AFeatList):
+            it = it.rec.attrs.get("feature_coll") or Term("features", it.rec.ident)
         if isinstance(it, AList) and not it.generic:
             it = list(it.items)
         if isinstance(it, (list, tuple)):
@@ -1480,9 +1497,10 @@ class Frame(object):
             elem = I.new_term("elem")
             sub = Frame(I, self.fi, dict(self.env), module=self.m)
             sub.assign(g.target, elem)
+            t = Term("map", it, _t(sub.expr(e.elt)), Term("over", elem))
             if g.ifs:
-                self.unsupported(e, "filtered comprehension over a term")
-            return Term("map", it, _t(sub.expr(e.elt)), Term("over", elem))
+                t = Term("filter", t, Term(re.sub(r"\s+", " ", self.m.segment(g.ifs[0]) or "cond") if self.m else "cond"))
+            return t
         self.unsupported(e, "comprehension over %r" % (it,))
 
     def e_Starred(self, e):
